@@ -18,6 +18,7 @@ import (
 	"fmt"
 	"testing"
 
+	"github.com/boz/kcache/filter"
 	corev1 "k8s.io/api/core/v1"
 	metav1 "k8s.io/apimachinery/pkg/apis/meta/v1"
 	"pgregory.net/rapid"
@@ -92,6 +93,18 @@ func c19Run(fail func(string), tm *term, objs []metav1.Object, mode string) {
 		if msg != "" {
 			fail(msg)
 			return
+		}
+	}
+	// the same constructor call repeated over the very same source objects: both results must still
+	// follow the reference (a constructor may not consume or reorder what it is given)
+	f1, f2 := tm.buildTwice()
+	for i, g := range []filter.Filter{f1, f2} {
+		for _, o := range objs {
+			msg, known := c19Compare(tm, g.Accept, o)
+			if !known && msg != "" {
+				fail(fmt.Sprintf("filter number %d built from one set of argument values: %s", i+1, msg))
+				return
+			}
 		}
 	}
 	if knownHits > 0 {
